@@ -62,3 +62,37 @@ def nullStats {X P : Type} (stat : P → List X → List X → α) (params : P) 
   perms.map (fun p => let (a, b) := resplit n m p; stat params a b)
 
 end Frouros.Perm
+
+namespace Frouros.Perm
+variable {α : Type} [Num α]
+
+/-! ### `_calculate_p_value`: method dispatch -/
+inductive Method where | auto | conservative | exact | approximate | estimate
+  deriving DecidableEq, Repr
+
+def maxNumPerm : Nat := 1000000
+
+/-- `if method == "auto": method = "approximate" if num_permutations > MAX_NUM_PERM else "exact"` -/
+def resolve (m : Method) (numPerm : Nat) : Method :=
+  match m with
+  | .auto => if numPerm > maxNumPerm then .approximate else .exact
+  | m => m
+
+/-- `total_num_permutations` when the user gave none: `min(max_num_permutations, MAX_NUM_PERM)` -/
+def totalPerms (total : Option Nat) (maxPerms : Nat) : Nat :=
+  match total with | some t => t | none => min maxPerms maxNumPerm
+
+/-- the p-value reported for null statistics `null` and observed statistic `obs` (after the repair the conservative
+formula divides by the number of statistics computed) -/
+def pValue (m : Method) (numPerm : Nat) (total : Option Nat) (maxPerms : Nat) (null : List α) (obs : α) : α :=
+  let b := extreme null obs
+  let k := null.length
+  let mt := totalPerms total maxPerms
+  match resolve m numPerm with
+  | .conservative => pConservative b k
+  | .exact => pExact b k mt
+  | .approximate => pApproximate b k mt
+  | .estimate => pEstimate b k
+  | .auto => pExact b k mt      -- unreachable: `resolve` never returns `auto`
+
+end Frouros.Perm
